@@ -12,7 +12,7 @@ ENGINES = [
 ]
 
 ENGINES.append(dict(name="engine-B-trace", path="/verif/harness (TestClientConnTrace, TestKeepAliveTrace, TestRelayTrace, TestServerTrace) + /verif/spec/Trace*.tla",
-                    serves_properties=["C01", "C02", "C04", "C05", "C06", "C07", "C08", "C13", "C14", "C19"],
+                    serves_properties=["C01", "C02", "C04", "C05", "C06", "C07", "C08", "C12", "C13", "C14", "C15", "C16", "C19"],
                     kind_free_text="code -> spec: seeded random drivers that are not derived from the spec run the real client (and server) in virtual time and record one ndjson event per observable step; "
                                    "TLC replays the events through the specification's actions (trace specification, POSTCONDITION on the high-water mark) and evaluates the invariants at every step"))
 
@@ -41,7 +41,7 @@ def core(design, what):
 TEXT = {
     "C01": core("6/C01", "Action property C01_OnlyAuthorised and invariant C01_NeverInstalled: every datagram toward a peer is justified by the sender's own live permission/channel in the pre-state, vetoed or wrong-family peers are never installed."),
     "C02": core("6/C02", "Action property C02_OnlyPermitted: everything a client receives because of a peer datagram goes to the owner only and is justified by a permission for the source IP or a channel bound to exactly the source."),
-    "C03": core("6/C03", "TurnAuth.tla: action properties C03_NoEffect / C03_OwnerOnly over every method x 18 credential defects x server states, with and without an auth handler; Nonce.tla: the acceptance table of both nonce implementations for every HMAC length 2..32, 11 mutation classes and ages up to 25 h; challenges must carry a nonce the server then accepts."),
+    "C03": core("6/C03", "TurnAuth.tla: action properties C03_NoEffect / C03_OwnerOnly over every method x 22 credential defects x server states, with and without an auth handler; Nonce.tla: the acceptance table of both nonce implementations for every HMAC length 2..32, 11 mutation classes and ages up to 25 h; challenges must carry a nonce the server then accepts."),
     "C04": core("6/C04", "Frame condition C04_Isolation over three 5-tuples (same IP other port, other IP, shared users/peers/numbers/transaction ids): a step by one client changes nothing of, and emits nothing to or from, any other."),
     "C05": core("6/C05", "C05_WithinLimitsDelivered plus payload identity: within the documented limits an authorised datagram comes out exactly once with the submitted bytes and truthful attribution; beyond them whole or not at all."),
     "C06": core("6/C06", "C06_Exact and NoOrphans: the countdown armed equals the LIFETIME answered (requested if < 3600 else default), Refresh(0) deletes at once, nothing survives its allocation; probed one second before and at every expiry."),
@@ -62,13 +62,13 @@ TEXT = {
     "C13": dict(engine="engine-B-trace", design_ref="6/C13", technique="TLA+ spec of the relayed socket (ClientConn.tla) + TLC; trace validation: executions recorded from the real client are replayed through the spec's actions by TLC",
                 level_note="Trusted: TLC, Go, synctest, the scripted server and the event log of the harness (events are appended under one lock in the order they happen). The recorded executions are a seeded sample, not an enumeration; the invariants are additionally model-checked on a small environment.",
                 level_text="Each recorded event (CreatePermission/ChannelBind request and answer, Send indication, ChannelData, WriteTo call/return, relayed data in, ReadFrom result, Close) must be a step ClientConn.tla allows: data toward a peer only after a CreatePermission success for its IP, ChannelData on n only after the server confirmed n for exactly that peer, numbers in range and injective, reads in FIFO order with the right peer, drops only when the queue is full."),
-    "C14": dict(engine="engine-B-trace", design_ref="6/C14", technique="TLA+ model of the refresh machinery against the expiry timers (KeepAlive.tla, unbounded duration) + TLC; trace validation of hours-long executions of the real client against the real server",
+    "C14": dict(engine="engine-B-trace", design_ref="6/C14", technique="TLA+ model of the refresh machinery against the expiry timers (KeepAlive.tla, unbounded duration) + TLC; trace validation of hours-long executions of the real client against the real server (TraceKeepAlive.tla; TraceRelayTCP.tla for the TCP allocation)",
                 level_note="Trusted: TLC, Go, synctest's clock, the in-memory network. The model abstracts time to 10 s units and one peer; the executions are a seeded sample of loss schedules and traffic patterns.",
                 level_text="C14_AllocAlive / C14_ChanAlive / C14_PermAlive / C14_CloseReleases are invariants of KeepAlive.tla over its whole (finite, time-abstract) state space; TraceKeepAlive.tla then decides for every recorded execution that every probe sent while the socket was open was delivered, that the server never deleted the allocation under the live client, and that Close released it."),
     "C15": core("6/C15", "TurnLife.tla adds the teardown causes (relay socket failure, Server.Close) and the event ledger EvDiff to the relay model; C15_NothingAfterClose / C15_NoOrphans are invariants. On the code, per step: lifecycle callbacks = EvDiff, open relay sockets = live allocations; per path: Server.Close then a two-hour drain with nothing left, nothing released twice and no late event."),
-    "C16": dict(engine="engine-A-walk", design_ref="6/C16", technique="TLA+ spec of the RFC 6062 relay (TurnTCP.tla) + TLC + lock-step replay on a real server with a stream listener",
+    "C16": dict(engine="engine-A-walk", design_ref="6/C16", technique="TLA+ spec of the RFC 6062 relay (TurnTCP.tla) + TLC + lock-step replay on a real server with a stream listener + trace validation (TraceRelayTCP.tla) of end-to-end executions of the real client's TCP allocation against the real server",
                 level_note="Trusted: TLC, Go, synctest, the harness's in-memory streams. Bounded: 2 clients, 2 users, 2 peer IPs x 2 ports, 3 connection ids, depth 6-7.",
-                level_text="TypeOK, C16_UniqueIds, C16_BindOnce, C16_InboundPermitted, C16_Dup446, C16_HeldDelivered are model-checked; every edge (Connect, inbound peer connection, ConnectionBind by right/wrong user and id, data both ways, closes from either side, control-connection close, time to 29/30 s) is replayed and responses, indications, piped bytes, closes, the connection table and the locks are compared."),
+                level_text="TypeOK, C16_UniqueIds, C16_BindOnce, C16_InboundPermitted, C16_Dup446, C16_HeldDelivered are model-checked; every edge (Connect, inbound peer connection, ConnectionBind by right/wrong user and id, data both ways, closes from either side, control-connection close, time to 29/30 s, a Connect whose outgoing dial takes time while others are served) is replayed and responses, indications, piped bytes, closes, the connection table and the locks are compared. TraceRelayTCP.tla then decides recorded executions of client.TCPAllocation (Dial, Accept, BindConnection, refresh timers) against the real server: which dials and inbound connections succeed, byte streams in order and complete, closes seen at the other end, nothing left after Close."),
     "C17": dict(engine="engine-A-walk", design_ref="6/C17", technique="TLA+ decision table (LtCred.tla) + TLC + replay of every case on the real generators/handlers and through a real server",
                 level_note="Trusted: TLC, Go, synctest's clock; MAC/Key uninterpreted. Bounded: 2 handler kinds x 3 user ids x 5 durations x mint at 0/1 s after handler construction x probes at every second of a 5 s window x 13 mutation classes.",
                 level_text="LtCred.tla states C17_Iff (authenticates iff untouched pair and now <= expiry); TLC checks it over the whole table and every generated case is executed on the real code twice (handler call; signed Allocate through a real server)."),
